@@ -171,15 +171,17 @@ def c14(tier):
     shapes = [(2, 1, 1, 1, 1), (1, 2, 1, 1, 1), (1, 0, 2, 1, 1), (1, 0, 1, 2, 1), (1, 0, 1, 1, 2), (1, 1, 2, 2, 2), (2, 2, 1, 2, 2)]
     if tier != "quick":
         shapes += [(2, 1, 2, 2, 2), (2, 2, 2, 2, 2), (3, 1, 1, 2, 2), (1, 3, 1, 2, 2), (1, 1, 3, 2, 2), (1, 1, 1, 3, 2), (1, 1, 1, 2, 3)]
-    for (b, f, l, p, i) in shapes:
-        d = {"MAXB": b, "MAXF": f, "MAXL": l, "MAXP": p, "MAXI": i, "EXACT_SHAPE": None}
+    # the handler's positive code: 7 (an arbitrary code) everywhere, and 1 = CIF_FINISHED - which the walker also receives from the packet
+    # iterator at the end of a loop - on two shapes
+    for (b, f, l, p, i, pos) in [s + (7,) for s in shapes] + [(1, 0, 1, 2, 1, 1), (1, 1, 2, 2, 2, 1)]:
+        d = {"MAXB": b, "MAXF": f, "MAXL": l, "MAXP": p, "MAXI": i, "EXACT_SHAPE": None, "POSCODE": pos}
         nev = 2 + b * (1 + f) * (2 + l * (2 + p * (2 + i)))
         rec = ["__CPROVER_file_local_cif_c_walk_container:3", "ref_cont:3"]
-        qs.append(Q("C14_walk_%d%d%d%d%d" % (b, f, l, p, i), "h14_walk.c", defs=d, unwind=max(b * (1 + f), l, p, i) + 2, mode="func",
+        qs.append(Q("C14_walk_%d%d%d%d%d%s" % (b, f, l, p, i, "" if pos == 7 else "_code%d" % pos), "h14_walk.c", defs=d, unwind=max(b * (1 + f), l, p, i) + 2, mode="func",
                     unwindset=["harness.*:%d" % (nev + 2)] + rec, object_bits=12, libtus=["cif.c"], remove=[("cif.c", "cif_get_all_blocks")],
                     replay_libs=ICU_LIBS, uthash="real", timeout=None,
                     bounds={"tree": "%d blocks x %d frames each x %d loops per container x %d packets x %d items (concrete shape; shapes enumerated by the driver)" % (b, f, l, p, i),
-                            "handler program": "every assignment of {CONTINUE,SKIP_CURRENT,SKIP_SIBLINGS,END,7} to the %d callback invocations" % nev},
+                            "handler program": "every assignment of {CONTINUE,SKIP_CURRENT,SKIP_SIBLINGS,END,%d} to the %d callback invocations" % (pos, nev)},
                     note="real cif_walk/walk_* over a symbolic tree vs reference walker (MUST/MUSTNOT/MAY)"))
     (b, f, l, p, i) = (1, 1, 1, 2, 1)          # (2, 1, 1, 2, 1) under CBMC's memory checks: engine error after 8-30 min per instance (measured), not used
     ncalls = 1 + b * (1 + f) * (2 + l * (1 + p))
@@ -241,17 +243,20 @@ def c19(tier):
                 # (exact / case-variant / absent spellings, all enumerated): with a symbolic key the shape after the
                 # operation is symbolic and no back end finished in 240 s (measured)
                 ksels = [None] if op == 2 else list(range(6))
-                for ks in ksels:
+                # packets a second time with the entries made by cif_packet_create(names) instead of set_item (different key ownership)
+                for ks, bycreate in [(k, b) for k in ksels for b in ((0, 1) if pk else (0,))]:
                     d = {"NPRE": npre, "OPK": op}
                     if pk:
                         d["PACKET"] = None
+                    if bycreate:
+                        d["PRE_BY_CREATE"] = None
                     if ks is not None:
                         d["KSEL"] = ks
-                    qs.append(Q("C19_%s_N%d_op%d_k%s" % ("packet" if pk else "table", npre, op, "sym" if ks is None else ks), "h19_map.c",
+                    qs.append(Q("C19_%s%s_N%d_op%d_k%s" % ("packet" if pk else "table", "_created" if bycreate else "", npre, op, "sym" if ks is None else ks), "h19_map.c",
                                 defs=d, extra=ICU_NORM_CHEAP, libtus=["value.c", "map.c", "packet.c", "utils.c"], unwind=npre + 4,
                                 unwindset=VAL_REC + ["memcmp.*:8"], mode="safety", replay_libs=ICU_LIBS,
                                 native_extra=["stubs/icu_norm_cheap.c"], object_bits=10, group="h19_map",
-                                bounds={"entries": "%d pre-inserted under concrete keys, symbolic values" % npre,
+                                bounds={"entries": ("%d made by cif_packet_create under concrete names, values unknown" if bycreate else "%d pre-inserted under concrete keys, symbolic values") % npre,
                                         "operation": ["set", "set NULL", "get", "take", "drop", "self-set"][op],
                                         "key": "symbolic" if ks is None else "concrete spelling #%d of a/A/B/b/c/z" % ks},
                                 note="%s contract vs map model" % ("packet" if pk else "table")))
@@ -431,13 +436,13 @@ META["C06"] = {"files": ["pktitr.c", "loop.c", "packet.c", "map.c"], "functions"
 # ------------------------------------------------------------------------------------------ C04
 K_NAMES = {1: "cif_create_block", 2: "cif_get_block", 3: "cif_container_create_frame", 4: "cif_container_get_frame", 5: "cif_container_create_loop",
            6: "cif_container_get_item_loop", 7: "cif_container_set_value", 8: "cif_container_get_value", 9: "cif_container_remove_item",
-           10: "cif_loop_add_item", 11: "cif_loop_add_packet", 12: "cif_loop_set_category", 13: "cif_container_get_category_loop", 20: "screening of codes and names"}
+           10: "cif_loop_add_item", 11: "cif_loop_add_packet", 12: "cif_loop_set_category", 13: "cif_container_get_category_loop", 14: "cif_get_all_blocks", 15: "cif_container_get_all_frames", 20: "screening of codes and names"}
 
 
 def c04(tier):
     import sql_colmap
     qs = []
-    fns = (1, 2, 3, 4, 5, 6, 7, 8, 9, 10, 11, 12, 13, 20)
+    fns = (1, 2, 3, 4, 5, 6, 7, 8, 9, 10, 11, 12, 13, 14, 15, 20)
     for f, bs in [(f, b) for f in fns for b in (range(6) if f == 20 else ((0, 1) if f == 7 else (None,)))]:
         d = {"FN": f, "SENV_COLSTORE": None}
         if bs is not None:
@@ -602,18 +607,24 @@ def value_queries(tier, prefix, defects):
     """The real parse_value / parse_list / parse_table over token scripts (contents of the tokens symbolic)."""
     qs = []
     items = [(sc, None) for sc in (VALUE_SCRIPTS + (VALUE_SCRIPTS_MORE if tier != "quick" else []))] if not defects else [(d[1], d) for d in VALUE_DEFECTS]
+    if not defects:
+        items += [(sc, "reuse") for sc in ["U", "D", "V", "Q", "T", "(V)", "{KV}"]]       # the target still holds the previous packet's value
     for sc, d in items:
         defs = {"SCRIPT": '"%s"' % sc, "EXISTING": 1 if (len(sc) % 2) else 0}
+        reuse = (d == "reuse")
+        if reuse:
+            d = None
+            defs["EXISTING"] = 2
         if d:
             defs.update({"EXPECT_ERRS": d[2], "EXPECT_TOP": d[3], "EXPECT_CONSUMED": d[4]})
             if len(d) > 5:
                 defs["LIVE_KEY_AT"] = d[5]
-        nm = ("value_" + sc.replace("(", "l").replace(")", "j").replace("{", "t").replace("}", "e")) if not d else ("defect_" + d[0])
+        nm = (("value_reuse_" if reuse else "value_") + sc.replace("(", "l").replace(")", "j").replace("{", "t").replace("}", "e")) if not d else ("defect_" + d[0])
         qs.append(Q("%s_%s" % (prefix, nm), "h01_value.c", defs=defs, extra=ICU_NORM_CHEAP, libtus=PROD_TUS, remove=[("parser.c", "__CPROVER_file_local_parser_c_next_token"), ("value.c", "cif_value_set_quoted"), ("value.c", "cif_value_try_quoted")],
                     unwind=len(sc) + 4, unwindset=[e.replace(":2", ":4") for e in VAL_REC] + ["harness.*:162", "memset.*:2000", "memcmp.*:8", "check:5", "skip:6",
                                                             "__CPROVER_file_local_parser_c_parse_value:5", "__CPROVER_file_local_parser_c_parse_list:4", "__CPROVER_file_local_parser_c_parse_table:4"],
                     mode="func", replay=False, uthash="model", object_bits=11, timeout=600 if tier == "quick" else 1800, mem_gb=8,
-                    bounds={"token script": sc, "token contents": "two symbolic code units per value / key token", "target": "existing value object" if defs["EXISTING"] else "new value object"},
+                    bounds={"token script": sc, "token contents": "two symbolic code units per value / key token", "target": ["new value object", "existing value object (unknown)", "existing value object holding a character value (as in a loop's second packet)"][defs["EXISTING"]]},
                     note="real parse_value / parse_list / parse_table over a token script: " + ("the tree the tokens denote" if not d else "defect class: code and recovery")))
     return qs
 
